@@ -364,6 +364,12 @@ def check_counts(stream):
     got = dict(steps=c.count_steps(stream), jumps=c.count_jumps(stream), hands=c.count_hands(stream), mines=c.count_mines(stream))
     if got != exp:
         return f"counts {got}; the statement gives {exp}"
+    for m in (1, 2, 3, 4):      # an explicit same_beat_minimum, where the function takes one
+        e = sum(v >= m for v in beats.values())
+        for fn in (c.count_steps, c.count_hands):
+            r = fn(stream, same_beat_minimum=m)
+            if r != e:
+                return f"{fn.__name__}(same_beat_minimum={m}) = {r}; the statement gives {e} (beats carrying at least {m} of them)"
     for head, fn in ((T.HOLD_HEAD, c.count_holds), (T.ROLL_HEAD, c.count_rolls)):
         for oh in g.OrphanedNotes:
             for ot in g.OrphanedNotes:
